@@ -26,7 +26,7 @@ var extras = map[string]ruleFn{
 		definitionRegistryTables(c, r, "", "C02.R13")
 		// "every required injection point populated by its target": a point wired by type is offered every component
 		// of the type (its target among them), whatever was processed before it
-		depTableRules(c, r, "C02.R14", "by-type-pointer", "by-type-interface", "no-error", "independent")
+		depTableRules(c, r, "C02.R14", "by-type-pointer", "by-type-interface", "no-error", "independent", "unshared")
 		// "cycles of any length ... succeed": what a processor of the library answers when asked for an early reference
 		earlyReferenceImplRules(c, r, "C02.R15")
 		// "reported as an error (or left empty when optional)": what the narrowing stage does with a point nothing qualifies for
@@ -104,7 +104,7 @@ var extras = map[string]ruleFn{
 		fieldScanRules(c, r, "C07.R9")
 		propsStageRules(c, r, "C07.R9")
 		// "receives exactly the component registered under that name": also when an earlier point of the holder missed
-		depTableRules(c, r, "C07.R10", "independent")
+		depTableRules(c, r, "C07.R10", "independent", "unshared")
 		// "exactly the component registered under that name": in the container of the holder, not in another one
 		perContainerProcessorRules(c, r, "C07.R12")
 		// "fails with an error when the point is required and leaves the field untouched when it is optional":
